@@ -461,6 +461,29 @@ func runRows(e *core.Env, prop string) error {
 				}
 			}
 		}
+		forceRef := ""
+		if withFilters && r.Chance(1, 4) {
+			// or-aggregation of two filters on byte-string fields where one REJECTS (an argument that does
+			// not occur) and the other is a reference lookup that ACCEPTS (the value is in the referenced
+			// table), in either column order: the row must be kept
+			var xs []string
+			for _, f := range fields {
+				if c, ok := cv[f]; ok && c.kind == 'x' && len(c.b) > 0 {
+					xs = append(xs, f)
+				}
+			}
+			if len(xs) >= 2 {
+				i := r.Intn(len(xs))
+				j := (i + 1 + r.Intn(len(xs)-1)) % len(xs)
+				for f := range bfl {
+					bfl[f] = gfilter{}
+				}
+				bfl[xs[i]] = gfilter{active: true, op: "contains", args: []string{"0x" + hex.EncodeToString(r.Bytes(len(cv[xs[i]].b)))}}
+				bfl[xs[j]] = gfilter{active: true, op: "contains", ref: true}
+				forceRef = xs[j]
+				agg = core.Pick(r, []string{"", "or", "or", "and"})
+			}
+		}
 		var cols []wpg.Column
 		for _, lf := range ec.selLeaf {
 			cols = append(cols, wpg.Column{Name: lf.col, Type: "bytea"})
@@ -496,9 +519,12 @@ func runRows(e *core.Env, prop string) error {
 		}
 		// reference table contents: sometimes contain the looked-up values
 		for _, c := range []string{"log_addr", "tx_hash", "block_hash", "tx_to", "tx_signer"} {
-			if r.Bool() {
+			if r.Bool() || c == forceRef {
 				refVals = append(refVals, cv[c].b)
 			}
+		}
+		if forceRef != "" {
+			refVals = append(refVals, cv[forceRef].b)
 		}
 		for _, w := range topics[1:] {
 			if r.Bool() {
@@ -633,6 +659,17 @@ func runRows(e *core.Env, prop string) error {
 			impl := runIt()
 			if l.tag == "matching" {
 				prevRerun, prevImpl, prevKey = runIt, impl, ec.desc
+				// anything else hashing in the same process (another integration being built, a transaction
+				// hash being computed) must leave this integration's signature hash alone
+				for k := 0; k < 4; k++ {
+					eth.Keccak([]byte(fmt.Sprintf("Other%d(uint256,address)", k)))
+				}
+				if again := runIt(); again != impl {
+					e.Add(core.Case{Impl: again, Spec: impl, Key: "intact-after-hashing " + ec.desc, Nontrivial: true,
+						Tags: []string{"integration-intact-after-other-hashing"}, Detail: map[string]any{"event": ev}})
+				} else {
+					e.Add(core.Case{Impl: "ok", Spec: "ok", Key: "intact-after-hashing " + ec.desc, Nontrivial: strings.HasPrefix(impl, "ok "), Tags: []string{"integration-intact-after-other-hashing"}})
+				}
 			}
 			var tt []string
 			for _, t := range l.topics {
